@@ -20,7 +20,7 @@ echo "demo with change: exit $r1 (want !=0); without: exit $r2 (want 0)"
 cd /repo && git apply $out/patch.diff || { echo "PATCH DOES NOT APPLY"; exit 1; }
 go build ./$pkgdir/ 2>&1 | tail -2
 cd /verif && ./check $prop > $out/check_output.txt 2>&1; r3=$?
-cd /repo && git checkout -- . 
+cd /repo && git apply -R $out/patch.diff
 grep -v "^  " $out/check_output.txt | tail -4
 echo "check exit=$r3"
 cat > $out/meta.json <<EOM
